@@ -6,7 +6,7 @@
 #   * a known finding does not end the shard (halt_on_error=0, exitcode=0) and is counted like any other known finding,
 #   * the runtime's own report text goes to a log file in the run directory (log_path) and a rendering with both
 #     stacks goes to stderr / the failure detail.
-TSAN = 'halt_on_error=0:exitcode=0:second_deadlock_stack=1:report_signal_unsafe=0:history_size=5:log_path=c20-tsan.log'
+TSAN = 'halt_on_error=0:exitcode=66:second_deadlock_stack=1:report_signal_unsafe=0:history_size=5:log_path=c20-tsan.log'
 WRAPS = ['psGetEntropy', 'time', 'psLockMutex', 'psUnlockMutex']
 
 PROP = dict(
@@ -37,6 +37,6 @@ PROP = dict(
                  'copying the plain-data fields of a session-id sslSessionId_t is a legal way for an application to resume one cached session on two parallel connections'],
     targets=[dict(name='c20_concurrent', src=['props/C20/concurrent.cc', 'harness/c20_wraps.c'], variant='tsan', wraps=WRAPS,
                   env={'VERIF_DIR': '/verif', 'TSAN_OPTIONS': TSAN}, replay_timeout=400,
-                  quick=dict(cases=48, secs=100, shards=4, shrink_secs=20, grace=330),
+                  quick=dict(cases=240, secs=100, shards=4, shrink_secs=10, grace=360),
                   thorough=dict(cases=1200, secs=1000, shards=4, shrink_secs=60, grace=330))],
 )
